@@ -143,3 +143,9 @@ def test_trace_function_source():
     left = c18.fn_source(e, "inst", "left", 0, (A, B))[0].splitlines()
     right = c18.fn_source(e, "inst", "right", 0, (A, B))[0].splitlines()
     assert "neg" in left[1] and "exp" in right[1]
+
+
+def test_shape_ops_on_python_scalars_are_outside_the_fragment():
+    assert not L.well_typed(("u", "reshape", (1,), ("num", 2.5)))
+    assert not L.well_typed(("u", "reshape", (1,), ("u", "neg", None, ("num", 2.5))))
+    assert L.well_typed(("u", "reshape", (1,), A)) and L.ty(("u", "reshape", (1,), A)) == ("real", (1,))
